@@ -14,6 +14,8 @@
 (*   status   per transaction "absent" | "inprogress" | "committed"        *)
 (*   staged   <<transaction, branch, table>> of every staged ref           *)
 (*   ncommits number of commit objects in the object store                 *)
+(*   objs     the name of every commit object (so also of those that no    *)
+(*            branch reaches: written, then the run was stopped)           *)
 (* A CommitTx / Discard line is accepted iff some final configuration of   *)
 (* Txn!ExecAny (failure at SOME store operation when one was injected,     *)
 (* branches in any order) has the logged result and exactly this           *)
@@ -52,6 +54,7 @@ Same(s, e) ==
   /\ e.status = [t \in 1..TNT |-> StatusOf(s, t)]
   /\ Range(e.staged) = {<<k[1], BrIx(k[2]), s.commits[s.staged[k]].tbl>> : k \in DOMAIN s.staged}
   /\ e.ncommits = NCommits(s.commits)
+  /\ Range(e.objs) = {Name(s, i) : i \in DOMAIN s.commits}
 
 Quiet == UNCHANGED <<run, budget>>
 
